@@ -11,8 +11,11 @@ use std::rc::Rc;
 pub struct Factors(pub usize, pub Vec<Rc<String>>);
 
 impl cmp::PartialOrd for Factors {
+    // Must agree with the derived `Ord`: BinaryHeap orders its elements
+    // with the comparison operators, and `dedup()` after
+    // `into_sorted_vec()` only removes duplicates that end up adjacent.
     fn partial_cmp(&self, other: &Factors) -> Option<cmp::Ordering> {
-        Some(self.0.cmp(&other.0))
+        Some(self.cmp(other))
     }
 }
 
